@@ -2,6 +2,7 @@
 from facts import AnalysisBroken
 from model import (dstr, strip, fact_holds, mentions_field, mentions_call, mentions_var,
                    mentions_enum, const_value, walk)
+from props.scan_common import check_active_edges
 from rules import (guarded, calls_to, field_writes, who_may_write, who_may_call, atom_cmp,
                    is_enum, is_var, is_field, has_field, anything, must_pass, basename)
 import cf
@@ -416,6 +417,7 @@ def run(ctx):
              'subproc_to_edge_' in dstr(x.get('init') or x.get('recv')) for x in gae.events())
     ctx.check('C06.R2', ok, gae.name, 'GetActiveEdges:not-from-subproc_to_edge_', gae.loc,
               'GetActiveEdges enumerates subproc_to_edge_')
+    check_active_edges(ctx, 'C06.R2', prog)
     cl = prog.fn('Builder::Cleanup')
     ctx.check('C06.R2', any(True for _ in cl.calls('CommandRunner::Abort')), cl.name,
               'Cleanup:no-Abort', cl.loc, 'Builder::Cleanup aborts the command runner')
@@ -487,7 +489,28 @@ def run(ctx):
                       'path %s returns capacity in [%s, %s]%s' % (path, lo, hi, ' with a command running' if tags else ''),
                       witness=None if ok else {'blocks': path, 'interval': [str(lo), str(hi)]})
         ctx.check('C06.L1', len(res) >= 4, name, 'capacity:paths', f.loc, '%d return paths analysed' % len(res))
-    ctx.floor('C06.L1', 6)
+    # the -j bound is dropped only for a jobserver client, and an explicit -j (or -n) rules that client out
+    crm = prog.fn('RealCommandRunner::CanRunMore')
+    for e in crm.events('asg'):
+        if is_var('capacity')(e['l']) and (const_value(e.get('r')) or 0) >= 2 ** 31 - 1:
+            guarded(ctx, 'C06.L1', crm, e, lambda a: mentions_field(a, 'RealCommandRunner::jobserver_'), True,
+                    'the parallelism bound is lifted only when a jobserver client exists', construct='capacity:unbounded-without-jobserver')
+    flags = {}
+    for f2, e2, kind, rhs in field_writes(prog, 'BuildConfig::disable_jobserver_client'):
+        if f2.name == 'ReadFlags' and const_value(rhs) == 1:
+            for k, (pol, atom) in f2.facts_at(e2).items():
+                a = strip(atom)
+                if pol and isinstance(a, dict) and a.get('k') == 'bin' and a['op'] == '==' and const_value(a['r']) in (ord('j'), ord('n')) and \
+                        mentions_var(a['l'], 'opt'):
+                    flags[chr(const_value(a['r']))] = f2.where(e2)
+    ctx.check('C06.L1', 'j' in flags and 'n' in flags, 'ReadFlags', 'explicit-j:jobserver-still-enabled', 'src/ninja.cc',
+              'ReadFlags sets disable_jobserver_client for -j (the explicit limit is the limit) and for -n: %s' % flags)
+    sj = prog.fn('NinjaMain::SetupJobserverClient')
+    mk = [e for e in sj.events('call') if e.get('name') in ('getenv', 'Jobserver::ParseNativeMakeFlagsValue', 'Jobserver::Client::Create')]
+    for e in mk:
+        guarded(ctx, 'C06.L1', sj, e, lambda a: mentions_field(a, 'BuildConfig::disable_jobserver_client'), False,
+                'MAKEFLAGS is consulted only when the client is not disabled', construct='jobserver-client:created-although-disabled')
+    ctx.floor('C06.L1', 9)
 
     # ---- CF1: a slot cannot be copied or forged -------------------------------------------------
     R('C06.CF1', 'CF', 'Jobserver::Slot is move-only and cannot be constructed from an integer '
